@@ -180,6 +180,45 @@ def runWrites (σ : Store) (inst : InstList) (k : Nat) (m : Names) : List String
       | _, _ => acc ++ ["bad-op"]
     | _ => acc ++ ["bad-op"]
 
+/-! known finding D26 (a region without a parent re-runs before the view is mounted): the same syntactic condition as
+in the harness; such cases are answered `unmodelled` on both sides and judged by the oracle alone -/
+mutual
+partial def hasDynamic : VD → Bool
+  | .el _ attrs cs => attrs.any (fun a => match a.2 with | .static _ => false | _ => true) || hasDynamicL cs
+  | .text _ => false
+  | .frag cs => hasDynamicL cs
+  | .noHydrate cs => hasDynamicL cs
+  | _ => true
+partial def hasDynamicL : VDList → Bool
+  | .nil => false
+  | .cons v r => hasDynamic v || hasDynamicL r
+end
+partial def altsToList : VDAlts → List VDList
+  | .nil => []
+  | .cons a r => a :: altsToList r
+mutual
+/-- regions that have no parent element when the view is built: (signal, number of choices, has dynamic content) -/
+partial def regionsOf : VD → List (Nat × Nat × Bool)
+  | .frag cs => regionsOfL cs
+  | .noHydrate cs => regionsOfL cs
+  | .dynView g alts =>
+    let as := altsToList alts
+    (g, as.length, as.any hasDynamicL) :: as.flatMap regionsOfL
+  | .show g cs => (g, 2, hasDynamicL cs) :: regionsOfL cs
+  | _ => []
+partial def regionsOfL : VDList → List (Nat × Nat × Bool)
+  | .nil => []
+  | .cons v r => regionsOf v ++ regionsOfL r
+end
+def isD26 (σ0 : List Nat) (vs0 : List Sexp) (vs : List VD) : Bool :=
+  let regs := vs.flatMap regionsOf
+  vs0.any fun v => match v with
+    | .list [.atom "setnow", .atom g, .atom x] =>
+      match g.toNat?, x.toNat? with
+      | some g, some x => regs.any fun (h, m, dyn) => h == g && (m == 0 || (σ0.getD g 0) % m != x % m || dyn)
+      | _, _ => false
+    | _ => false
+
 /-- `view run (L vd…) <store> <i=v,i=v,…>` -/
 def handle (line : String) : String :=
   let parts := line.splitOn " "
@@ -189,6 +228,7 @@ def handle (line : String) : String :=
     | some (.list (.atom "L" :: vs0)) =>
       match vs0.mapM readVD with
       | some vs =>
+        if isD26 (parseStore store) vs0 vs then "unmodelled: a parentless region re-ran before mounting (D26)" else
         let σ := storeAfterBuild (parseStore store) vs0
         let (inst, k) := mountList σ (VDList.ofList vs) 0
         let (m, out) := showTrees [] (domList σ inst)
